@@ -235,6 +235,7 @@ pub fn run(env: &Env) -> PropRun {
     let mut parts = vec![];
     parts.push(random_part(env, "raw-histories", env.tier.scale(100_000, 40), &gen_raw, &jr));
     parts.push(random_part(env, "raw-shapes", env.tier.scale(60_000, 40), &gen_shapes, &jr));
+    parts.push(random_part(env, "raw-many-calls", env.tier.scale(200, 20), &|s: &mut Src, i| super::c01::gen_many_calls(s, i), &jr));
     parts.push(random_part(env, "tracked-histories", env.tier.scale(60_000, 40), &gen_tracked, &jt));
     parts.push(random_part(env, "tracked-shapes", env.tier.scale(40_000, 40), &gen_shapes, &jt));
     PropRun {
